@@ -1,6 +1,7 @@
 import HcModel.Drv.Tlv8
 import HcModel.Drv.Pair
 import HcModel.Drv.Http
+import HcModel.Drv.Storage
 /-
   Line-protocol driver of the executable models: one operation per input line
   (`<module> <op> <args…>`), one result per output line. Core Lean only, so it links as `lean_exe`.
@@ -13,6 +14,8 @@ def step (line : String) : String :=
   | "pairsetup" :: rest => Hc.Drv.Pair.handleSetup rest
   | "pairverify" :: rest => Hc.Drv.Pair.handleVerify rest
   | "http" :: rest => Hc.Drv.Http.handle rest
+  | "storage" :: rest => Hc.Drv.Storage.handle rest
+  | "fs" :: rest => Hc.Drv.Storage.handleFs rest
   | _ => "bad-op"
 
 partial def loop (hin hout : IO.FS.Stream) : IO Unit := do
